@@ -17,6 +17,7 @@ extern int h_exec_status;
 char *h_execlog_take(void);
 const char *h_dns_last_qname(void);
 int h_dns_last_qtype(void);
+int h_dns_searched_take(void);
 void h_dns_set_answer(const uint8_t *b, int len, int retlen);
 void h_lock_edges(FILE *out);
 void h_lock_reset(void);
